@@ -57,6 +57,8 @@ class Check:
         except Exception:
             self.known = {'findings': [], 'fixed': []}
         self.ir = None
+        import shutil
+        shutil.rmtree(os.path.join(build.OUT, 'replay', self.pid), ignore_errors=True)
 
     # ------------------------------------------------------------ IR
     def load_ir(self, kind='server'):
